@@ -1586,7 +1586,7 @@ class SMtime(Sym):
 
 class FileSyncStrategies(Contract):
     target = f"{SY}.FileSync.update"
-    properties = ("C14",)
+    properties = ("C13", "C14")
 
     def cases(self):
         return [{"fn": "update"}, {"fn": "always"}, {"fn": "never"}]
@@ -1605,6 +1605,32 @@ class FileSyncStrategies(Contract):
                     return SMtime(g["mt"][s_.side])
                 raise Unsupported("stat field " + name)
         ctx.externals[os.stat] = lambda interp, p: SStatM(p.side) if isinstance(p, SPath) and p.fn is not None else (_ for _ in ()).throw(Unsupported("os.stat"))
+
+        class SPick(Sym):
+            """max / min of two values by a key: the first one wins ties (CPython)"""
+
+            def __init__(s_, first_wins, a, b):
+                s_.c, s_.a, s_.b = first_wins, a, b
+
+            def sym_is(s_, ex, other):
+                if other is s_.a:
+                    return SBool(s_.c)
+                if other is s_.b:
+                    return SBool(z3.Not(s_.c))
+                return False
+
+            def sym_eq(s_, ex, other):
+                return s_.sym_is(ex, other)
+        base_hook = ctx.builtin_hook
+
+        def hook(interp, f, args, kw):
+            if f in (max, min) and len(args) == 2 and set(kw) <= {"key"}:
+                key = kw.get("key")
+                ka, kb = (interp.call(key, [x], {}) for x in args) if key is not None else args
+                if isinstance(ka, SMtime) and isinstance(kb, SMtime):
+                    return SPick(ka.e >= kb.e if f is max else ka.e <= kb.e, args[0], args[1])
+            return base_hook(interp, f, args, kw)
+        ctx.builtin_hook = hook
         return ctx
 
     def setup(self, interp, case):
